@@ -275,6 +275,24 @@ pub fn main(opts: &Opts) {
         }
     } else {
         scheds.extend(gen_drop_windows());
+        // C07: the peer goes away with 0..3 requests outstanding, futures at every suspension point
+        for n in 0..=3usize {
+            for polled in 0..=n {
+                for delivered in 0..=1usize {
+                    let mut a: Vec<String> = (0..n).map(|_| "s1".to_string()).collect();
+                    for i in 0..polled {
+                        a.push(format!("p{i}"));
+                    }
+                    if delivered == 1 && n > 1 {
+                        a.push(format!("d{n}/{}/1", 40 + n));
+                    }
+                    a.push("c".into());
+                    a.push("s1".into()); // a later operation must fail, not hang
+                    a.push(format!("r{}", n + 2));
+                    scheds.push(a);
+                }
+            }
+        }
         let n = if opts.thorough() { 200_000 } else { 6_000 };
         for i in 0..n {
             scheds.push(gen_random(&mut rng, if i % 3 == 0 { 8 } else { 18 }, i % 2 == 0));
@@ -293,6 +311,9 @@ pub fn main(opts: &Opts) {
                 scheds.push(a);
             }
         }
+    }
+    if opts.extra.iter().any(|e| e == "only-close") {
+        scheds.retain(|s| s.iter().any(|a| a == "c"));
     }
     if only_drop {
         scheds.retain(|s| s.iter().any(|a| a.starts_with('x')));
